@@ -405,7 +405,18 @@ func (g *G) stmt(d int, ret ty) string {
 		n := 1 + g.pick(3)
 		g.def(&vinfo{name: w, t: tInt})
 		body := g.stmts(d-1, ret, 1+g.pick(2))
-		return w + " = 0\nwhile " + w + " < " + fmt.Sprint(n) + " {\n" + body + "\n" + w + " = " + w + " + 1\n}"
+		cond := w + " < " + fmt.Sprint(n)
+		switch g.pick(4) {
+		case 0: // the condition calls a function
+			cond = "lt(" + w + ", " + fmt.Sprint(n) + ")"
+		case 1:
+			cond = "!lt(" + fmt.Sprint(n-1) + ", " + w + ")"
+		}
+		if g.pick(3) == 0 {
+			// the body ends in the loop's own statements, the counter moves first
+			return w + " = 0\nwhile " + cond + " {\n" + w + " = " + w + " + 1\n" + body + "\n}"
+		}
+		return w + " = 0\nwhile " + cond + " {\n" + body + "\n" + w + " = " + w + " + 1\n}"
 	case (c == 7 || c == 8) && d > 0:
 		gens := g.fns(0, true)
 		k := 1
@@ -534,7 +545,16 @@ func (g *G) fundef(d int, gen bool) string {
 			body += "\nwhile " + g.expr(tBool, d) + " return " + g.expr(info.ret, d)
 		case 2: // a counted loop with a conditional return: falls through with the body's last value
 			w := g.fresh("w")
-			body += "\n" + w + " = 0\nwhile " + w + " < 3 {\n" + w + " = " + w + " + 1\nif " + g.expr(tBool, d) + " return " + g.expr(info.ret, d) + "\n}"
+			cond := w + " < 3"
+			if g.pick(2) == 0 {
+				cond = "lt(" + w + ", 3)"
+			}
+			if g.pick(2) == 0 {
+				// ... or the tail is a plain counting loop: its value is the last assignment
+				body += "\n" + w + " = 0\nwhile " + cond + " " + w + " = " + w + " + 1"
+			} else {
+				body += "\n" + w + " = 0\nwhile " + cond + " {\n" + w + " = " + w + " + 1\nif " + g.expr(tBool, d) + " return " + g.expr(info.ret, d) + "\n}"
+			}
 		case 3:
 			v := g.fresh("v")
 			body += "\nfor " + v + " <- fromto(0, 3) if " + v + " == " + fmt.Sprint(g.pick(4)) + " return " + g.expr(info.ret, d)
@@ -841,7 +861,8 @@ func (g *G) PureFunction(d int) (def, call, other string) {
 func (g *G) helpers() []string {
 	g.def(&vinfo{name: "one", t: tFn, ret: tInt})
 	g.def(&vinfo{name: "inc", t: tFn, ret: tInt, params: []ty{tInt}})
-	res := []string{"one = () -> (3 - 1) - 1", "inc = (x) -> (x + 2) - 1"}
+	g.def(&vinfo{name: "lt", t: tFn, ret: tBool, params: []ty{tInt, tInt}})
+	res := []string{"one = () -> (3 - 1) - 1", "inc = (x) -> (x + 2) - 1", "lt = (a, b) -> a < b"}
 	if g.pick(5) == 0 {
 		// the names of the built-ins are ordinary globals: a program may rebind them
 		// (the bodies use nested operators, i.e. the temp register)
